@@ -75,6 +75,11 @@ def layoutChk : Nat → Nat → List Section → Bool
     (if s.realSize = 0 then layoutChk s.offset lo rest
      else decide (lo ≤ s.offset) && alignedB s && layoutChk s.offset (s.offset + s.realSize) rest)
 
+/-- end of the last section (by order) whose real size is not zero; `d` if there is none -/
+def endOfLastNonEmpty : Nat → List Section → Nat
+  | d, [] => d
+  | d, s :: rest => if s.realSize ≠ 0 then endOfLastNonEmpty (s.offset + s.realSize) rest else endOfLastNonEmpty d rest
+
 def lastEnd (secs : List Section) : Nat :=
   match secs.getLast? with
   | some s => s.offset + s.realSize
